@@ -178,6 +178,14 @@ func checkC11(R *Run) {
 								hdr = ii.Block()
 							}
 						}
+						// range over a slice literal: the element is loaded through &lit[i]
+						if u, isU := stripConv(ci.Common().Args[0]).(*ssa.UnOp); isU && u.Op == token.MUL {
+							if ia, isIA := u.X.(*ssa.IndexAddr); isIA {
+								if ii, isI := ia.Index.(ssa.Instruction); isI {
+									hdr = ii.Block()
+								}
+							}
+						}
 						var tIdx ssa.Value
 						if _, _, tr := tableRowsIdx(ci.Common().Args[0], &tIdx); tr != nil {
 							if ii, isI := tIdx.(ssa.Instruction); isI {
